@@ -22,20 +22,30 @@ from vlib.runner import Violation, code_under_test
 
 PROPERTY_ID = "C15"
 LEVEL = "exploration"
-RULE = ("scan: chunks are codon strings from a start/stop-rich pool (ATG GTG TTG TAA TAG TGA, their reverse "
-        "complements, fillers, IUPAC codes, lower case, 0-2 extra leading/trailing bases, length 0..~300); the "
-        "chunk (direction 1) or its reverse complement (direction -1) is written into a record of length L at "
-        "[offset, offset+len) modulo L (L = len .. len+60 or no record length), offset in [-L, L]; "
-        "minimum_length from {0,3,6,9,60} or an ORF's own length -1/0/+1. Enumeration: every string of <= N "
-        "codons over {ATG,TTG,TAA,TGA,AAA} with 0-2 leading and trailing bases, both directions, every offset, "
-        "L in {len, len+1, len+4, None}. search: records from the same pool with 0..5 genes built by "
-        "construction (adjacent, nested, ending within the padding of each other, tiny, multi-exon, origin-"
-        "spanning), area none / simple / origin-crossing (also the whole ring), min_length and max_overlap "
-        "around the planted ORFs; enumeration of all 1-2 gene layouts on a grid over ORF-dense rings. "
-        "Non-trivial: at least one reference ORF and (reverse strand, or an ORF wrapping the origin, or an ORF "
-        "length within 3 of the minimum, or non-zero offset with a record length); for search: a result or a "
-        "reference ORF exists and (a gene lies within 2*max_overlap of one, or the area crosses the origin, or "
-        "an ORF length is within 3 of the minimum). distinct = sha1 of the canonical spec.")
+RULE = ("scan: the chunk is a codon string from a start/stop-rich or a quiet pool (ATG GTG TTG TAA TAG TGA, their "
+        "reverse complements, fillers, IUPAC codes incl. TAR/RTG/YAA) with up to three planted ORFs on either "
+        "strand, 0-2 extra leading/trailing bases, optional lower case / stray IUPAC letters, 0..~300 nt; the chunk "
+        "(direction 1) or its reverse complement (direction -1) is written into a record of length L at "
+        "[offset, offset+len) modulo L (L = len + {0,1,2,3,4,7,60}, or no record length with offset >= 0); offset "
+        "in [-L, L] biased to the values that put an ORF just / half / almost completely across the origin; "
+        "minimum_length from {0,3,6,9,60} or an ORF's own length -3/-1/0/+1. Enumeration: every string of <= N "
+        "codons over {ATG,TTG,TAA,TGA,AAA} with 0-2 leading and trailing bases, both directions, L in {len, len+1, "
+        "len+4, None}; up to M codons with every offset in [-L, L] and minima {0,6,9,10}, longer ones with 12 "
+        "boundary offsets and minima {0, 3N-3, 3N}. search: rings/lines from the same pools (optionally rotated so "
+        "that an ORF lies across the origin) with 0..5 genes built by construction (free, after the previous one "
+        "within +-padding, nested into the previous one's tail, tiny, multi-exon, origin-spanning; boundaries "
+        "anchored at ORF ends +- max_overlap), area none / simple / origin-crossing (also the whole ring), "
+        "min_length around the ORF lengths, max_overlap in {0,1,3,10,15}; search_enum: all one- and two-gene "
+        "layouts on a coordinate grid over three ORF-dense 42-nt rings x 4 areas x paddings; search_free: all codon "
+        "strings as gene-free rings/lines with every origin-crossing whole-ring area. feature: every kind of "
+        "reference ORF location (plain, wrapped, both strands, alternative starts) through "
+        "create_feature_from_location and get_trimmed_orf with include/min/max options. "
+        "Non-trivial (scan): at least one reference ORF and (reverse direction, or an ORF wrapping the origin, or "
+        "an ORF length within 3 of the minimum, or a non-zero offset with a record length); (search): a result or "
+        "a reference ORF exists and (a gene within 2*max_overlap of a result, or an origin-crossing area, or an ORF "
+        "length within 3 of the minimum, or a reverse-strand result); (feature): wrapped / reverse / alternative "
+        "start, or a trimmed result. distinct = sha1 of the canonical spec (enumerated cases are distinct by "
+        "construction). Cases that hit an open known finding are counted in excluded_known, not in the classes.")
 ASSUMPTIONS = [
     "stop codons are the literal triplets TAA/TAG/TGA and start codons ATG/GTG/TTG after upper-casing; IUPAC "
     "ambiguity codes are never starts or stops (the statement lists the start codons literally)",
@@ -45,7 +55,9 @@ ASSUMPTIONS = [
     "without a record length and offset >= 0 (what find_all_orfs and the repository tests do)",
     "for gene layouts only soundness of find_all_orfs is asserted (the statement says 'only returns'); "
     "completeness is asserted when no gene touches the searched window",
-    "overlap with a gene is counted on the gene's exon bases (never more than the hull overlap the code uses)",
+    "overlap with a gene is counted on the gene's exon bases (never more than the hull overlap the code uses) and "
+    "per contiguous stretch of the ORF: an ORF in a gap may reach max_overlap bases into the neighbouring gene at "
+    "each end of the gap, and on a ring both neighbours can be the same gene",
     "get_trimmed_orf is judged only as part of the search flow: its result is an ORF suffix of the input ORF "
     "with a translation matching its location",
 ]
@@ -184,7 +196,7 @@ def _sig_spanning_gene_both_sides(sub, spec, clause, detail) -> bool:
     after = {base for base in orf if base < pad}
     if before | after != orf or not (gene & before) or not (gene & after):
         return False
-    return len(gene & before) <= pad and len(gene & after) <= pad
+    return len(gene & before) <= pad and len(gene & after) <= pad and detail["overlap"] <= 2 * pad
 
 
 def _sig_tiny_gene_at_origin(sub, spec, clause, detail) -> bool:
@@ -211,11 +223,6 @@ def _sig_trim_wrapped(sub, spec, clause, detail) -> bool:
     return clause == "trim_is_suffix" and len(spec["orf"]["parts"]) == 2
 
 
-def _sig_lookup(sub, spec, clause, detail) -> bool:
-    """ the gene was not returned by Record.get_cds_features_within_location (root cause of C08) """
-    return clause == "search_overlap" and detail.get("gene") in (detail.get("lookup_missed") or [])
-
-
 SIGNATURES = {
     "exact_minimum_length_dropped": _sig_exact_min,
     "reverse_wrapped_part_order": _sig_reverse_wrap,
@@ -224,7 +231,6 @@ SIGNATURES = {
     "spanning_gene_padding_both_sides": _sig_spanning_gene_both_sides,
     "tiny_gene_at_origin_assertion": _sig_tiny_gene_at_origin,
     "trim_wrapped_orf": _sig_trim_wrapped,
-    "lookup_missed_gene": _sig_lookup,
 }
 
 
@@ -410,6 +416,21 @@ def _window_reference(seq: str, start: int, size: int, minimum: int) -> dict:
     return found
 
 
+def _longest_covered_run(arc: tuple, length: int, covered: frozenset) -> int:
+    """ the longest stretch of consecutive ORF bases (walking along the arc) that lie in `covered`.
+        An ORF in a gap may reach up to max_overlap bases into the neighbouring gene at *each* end of
+        the gap; on a ring both neighbours can be the same gene, so stretches are judged one by one. """
+    start, size = arc
+    best = run = 0
+    for index in range(size):
+        if (start + index) % length in covered:
+            run += 1
+            best = max(best, run)
+        else:
+            run = 0
+    return best
+
+
 def _orf_problem(prefix: str, location, record_seq, length: int, extra: dict) -> list:
     """ clauses every feature location must satisfy: well formed arc, extracts to an ORF """
     loc = ring.from_bio(location)
@@ -486,9 +507,10 @@ def check_search(spec: dict) -> dict:
         if not bases <= area_bases:
             problems.append(("search_in_area", {"location": loc, "outside": sorted(bases - area_bases)[:10]}))
         for index, other in enumerate(gene_bases):
-            shared = len(bases & other)
+            shared = _longest_covered_run(arc, length, other) if bases & other else 0
             if shared > pad:
                 problems.append(("search_overlap", {"location": loc, "gene": index, "overlap": shared,
+                                                    "total_overlap": len(bases & other),
                                                     "max_overlap": pad, "lookup_missed": lookup_missed}))
         if not bad:
             text = str(feature.location.extract(record.seq))
@@ -523,14 +545,16 @@ def check_search(spec: dict) -> dict:
     if not both_sides_searched:
         classes.append("origin_side_shorter_than_min")
     near_gene = False
-    for feature in got.values():
+    for key, feature in got.items():
         bases = ring.bases(ring.from_bio(feature.location))
         for other in gene_bases:
-            shared = len(bases & other)
+            shared = _longest_covered_run(key[:2], length, other) if bases & other else 0
             if shared == pad and pad:
                 classes.append("overlap_eq_max")
             if shared:
                 classes.append("overlap_some")
+            if len(bases & other) > shared:
+                classes.append("same_gene_at_both_ends")
             if ring.dist_sets(bases, other, length if spec["circular"] else None) <= 2 * pad:
                 near_gene = True
         if len(feature.location.parts) == 2:
